@@ -89,12 +89,15 @@ def rule_commit(ctx):
         blk = b.blocks[nxt]
         ok = False
         if blk.term["k"] == "switch":
-            names = C.variant_names(ix, "std::result::Result<x>")
+            verdicts = []
             for a in [(x[0], x[1]) for x in blk.term["arms"]] + [("otherwise", blk.term["otherwise"])]:
+                if b.blocks[a[1]].term["k"] == "unreachable" and not b.blocks[a[1]].stmts:
+                    continue  # the `_ => unreachable` edge of an exhaustive match
                 reach = b.reachable_from(a[1], include_start=True)
                 is_err_edge = a[0] == 1 or (a[0] == "otherwise" and 0 in [x[0] for x in blk.term["arms"]])
                 if is_err_edge:
-                    ok = bool(errs & reach) and cb not in reach
+                    verdicts.append(bool(errs & reach) and cb not in reach)
+            ok = bool(verdicts) and all(verdicts)
         ctx.check(ok, "load_position:unknown-move-refuses-command", "a move that find_move rejects leads to an Err return that bypasses the commit", b.where(bi),
                   bad_what="a rejected move does not abort the whole command (the loop breaks or continues, and the position is still replaced)")
 
